@@ -6,4 +6,6 @@ let find (id : string) : sx -> sx =
   | "C17" -> model_C17
   | "C16" -> model_C16
   | "C14" -> model_C14
+  | "C02" -> model_C02
+  | "C01" -> model_C01
   | _ -> failwith ("no extracted model for " ^ id)
